@@ -9,15 +9,16 @@ import (
 // Bias steers the shared scenario / history generators towards the region a property speaks
 // about (DESIGN.md 2.2 "Per-property bias").
 type Bias struct {
-	ForceProvider   bool     // always a traffic provider and >= 1 traffic step
-	Kinds           []string // allowed "workload/style" pairs; empty = all built
-	UserWeights     map[string]int
-	Restarts        bool // allow controller restarts between reconciles
-	Adversarial     bool // environment may flip pods unready
-	MaxActions      int
-	HostileJump     bool // jump targets include out-of-range values
+	ForceProvider    bool     // always a traffic provider and >= 1 traffic step
+	Kinds            []string // allowed "workload/style" pairs; empty = all built
+	UserWeights      map[string]int
+	Restarts         bool // allow controller restarts between reconciles
+	Adversarial      bool // environment may flip pods unready
+	MaxActions       int
+	HostileJump      bool // jump targets include out-of-range values
 	NoInitialRelease bool
-	LargeReplicas   bool
+	LargeReplicas    bool
+	SettlePct        int // share (percent) of "settle" actions: run controllers + environment until they wait
 }
 
 // FindingGatewayDisableCanarySvc: Gateway API provider with disableGenerateCanaryService: true.
@@ -174,6 +175,8 @@ func GenHistory(t *rapid.T, s Scenario, b Bias) []Action {
 			out = append(out, Action{Kind: "env", I: rapid.IntRange(0, 7).Draw(t, "env-index")})
 		case r < 83 && b.Restarts:
 			out = append(out, Action{Kind: "restart"})
+		case r >= 100-b.SettlePct:
+			out = append(out, Action{Kind: "settle"})
 		default:
 			if len(pool) == 0 {
 				continue
